@@ -6,10 +6,12 @@ using namespace coloquinte;
 extern "C" void harness() {
   float w = __verif_nondet_float(0.0078125f, 64.0f);
   float o0 = __verif_nondet_float(-1000.0f, 1000.0f); float o1 = __verif_nondet_float(-1000.0f, 1000.0f);
-  int fixedPin = __verif_choice(2);
+  int mode = __verif_choice(3);
+  int fixedPin = mode == 1;
   NetModel m(2);
   if (fixedPin) m.addNet({0}, {o0}, o1, o1, w);      // movable pin + one fixed pin at o1
-  else m.addNet({0, 1}, {o0, o1}, w);
+  else if (mode == 0) m.addNet({0, 1}, {o0, o1}, w);
+  else m.addNet({0, 1}, {o0, o1}, std::numeric_limits<float>::infinity(), -std::numeric_limits<float>::infinity(), w);   // the form xTopology uses, no fixed pin
   m.check();
   VASSERT(m.nbNets() == 1, "net registered");
   VASSERT(m.netWeight(0) == w, "the net model keeps the real-valued weight");
